@@ -120,6 +120,18 @@ def bounded(rep, tier, seed):
                     got, ok = repr(ex)[:150], False
                 if not ok:
                     fails.append({"runner": runner.__name__, "cel": "timestamp(string(t)) == t", "t": str(t), "observed": repr(got)})
+        # timestamps WRITTEN with an offset (negative and fractional-hour ones included) round-trip through their text as well
+        for off in ("+00:00", "-00:30", "-03:30", "-09:30", "-05:00", "+05:45", "+05:30", "+14:00", "-12:00", "-01:15"):
+            for base in ("2009-02-13T23:31:30", "2020-02-29T00:00:00", "1999-12-31T23:59:59"):
+                n += 1
+                try:
+                    t = ct.TimestampType(base + off)
+                    got = ev_("timestamp(string(t)) == t", t=t)
+                    ok = isinstance(got, ct.BoolType) and bool(got)
+                except Exception as ex:
+                    got, ok = repr(ex)[:150], False
+                if not ok:
+                    fails.append({"runner": runner.__name__, "cel": "timestamp(string(t)) == t", "t": base + off, "observed": repr(got)})
         for secs in [0, 1, -1, 59, 60, 3600, 86399, 86400, -86400, 315576000000, -315576000000, 10**9 + 7] + \
                 ([rng.randint(-315576000000, 315576000000) for _ in range(300)] if tier == "thorough" else [rng.randint(-315576000000, 315576000000) for _ in range(20)]):
             n += 1
